@@ -37,6 +37,30 @@ theorem c14_fact_sections_exist :
     (actionTable.filter properlyLocked).all (fun row =>
       Facts.lockTable.any (fun r => r.2 == row.2)) = true := by decide
 
+/-- FACT (go/ast over the packages urlfilter, lookup, filterlist, recomputed on every run): NO function on a
+    query path -- reachable, in the name-based call graph, from an exported function or method that is neither a
+    constructor `New*` nor the construction-time API `AddRule`/`TryAdd` -- assigns to, appends to, increments,
+    deletes from or re-initialises a field of the struct types the model treats as immutable after construction
+    (`DNSEngine.pool/lookupTable/networkEngine/rulesStorage/RulesCount`, `NetworkEngine.lookupTables/ruleStorage/
+    RulesCount`, `RuleStorage.listsMap/lists/cacheMu`, the maps of the three lookup tables, the sequential table's
+    slice, the cosmetic engine's tables), nor calls `AddRule`/`TryAdd`.  Helper extraction inside constructors
+    does not disturb it; memoising into a table from `MatchAll` does. -/
+theorem c14_fact_no_query_writes :
+    Facts.fieldWriters.all (fun row => row.2.2.1 == "-" || postConstructionWriters.contains (row.1, row.2.1)) = true := by
+  decide
+
+/-- FACT: every writer of such a field is a constructor (`New*`/`new*`) or a function all of whose call sites
+    inside the module lie in constructor-only functions (`addRule`, `AddRule`, `TryAdd` today).  What exported
+    mutators do when a USER calls them after construction is outside the property. -/
+theorem c14_fact_writers_constructor_only :
+    Facts.fieldWriters.all (fun row => row.2.2.2 == "c" || postConstructionWriters.contains (row.1, row.2.1)) = true := by
+  decide
+
+/-- FACT: the extraction is not vacuous: every struct type the model freezes was found in the source, and each
+    has a writer row (its constructor). -/
+theorem c14_fact_frozen_types_found :
+    frozenTypes.all (fun t => Facts.frozenTypes.contains t && Facts.ctorWrittenTypes.contains t) = true := by decide
+
 /-- Sequential consistency of the model, for EVERY schedule: any number of concurrent queries `qs`,
     any list of thread ids of any length (a thread id may repeat arbitrarily, be starved, or not exist),
     from any state satisfying the shared invariant with no list closed: no thread crashes, and every thread
